@@ -8,8 +8,22 @@ using namespace vf;
 
 static const char* NAMES[] = {"put", "touch", "touch_if_exists", "erase", "erase_if_exists", "get", "get_touch", "pop", "clear"};
 
-struct SetOps {
-    tlx::LruCacheSet<int> c;
+// key / value type whose move operations empty their source (like std::string): a moved-from key must not be used to find anything afterwards
+struct MKey {
+    long long v;
+    MKey(long long x = 0) : v(x) {}
+    MKey(const MKey&) = default;
+    MKey& operator=(const MKey&) = default;
+    MKey(MKey&& o) noexcept : v(o.v) { o.v = -999; }
+    MKey& operator=(MKey&& o) noexcept { v = o.v; if (this != &o) o.v = -999; return *this; }
+    bool operator==(const MKey& o) const { return v == o.v; }
+    operator long long() const { return v; }
+};
+namespace std { template <> struct hash<MKey> { size_t operator()(const MKey& k) const { return std::hash<long long>()(k.v); } }; }
+
+template <class K>
+struct SetOpsT {
+    tlx::LruCacheSet<K> c;
     void put(int k, int) { c.put(k); }
     int get(int k) { if (!c.exists(k)) throw std::range_error("x"); return 0; }     // the set has no get: model as value 0
     int get_touch(int k) { c.touch(k); return 0; }
@@ -18,8 +32,10 @@ struct SetOps {
     void order(std::vector<long long>& ks, std::vector<long long>& vs) { auto d = c; while (d.size()) { ks.push_back(d.pop()); vs.push_back(0); }
         std::reverse(ks.begin(), ks.end()); std::reverse(vs.begin(), vs.end()); }
 };
-struct MapOps {
-    tlx::LruCacheMap<int, int> c;
+using SetOps = SetOpsT<int>;
+template <class K, class V>
+struct MapOpsT {
+    tlx::LruCacheMap<K, V> c;
     void put(int k, int v) { c.put(k, v); }
     int get(int k) { return c.get(k); }
     int get_touch(int k) { return c.get_touch(k); }
@@ -27,6 +43,8 @@ struct MapOps {
     void order(std::vector<long long>& ks, std::vector<long long>& vs) { auto d = c; while (d.size()) { auto p = d.pop(); ks.push_back(p.first); vs.push_back(p.second); }
         std::reverse(ks.begin(), ks.end()); std::reverse(vs.begin(), vs.end()); }
 };
+
+using MapOps = MapOpsT<int, int>;
 
 template <class O>
 static void run(Out& out, int flavour, int nkeys, std::istringstream& is, size_t nops) {
@@ -74,7 +92,9 @@ int main(int argc, char** argv) {
         if (line.empty()) continue;
         std::istringstream is(line);
         int fl, nkeys; size_t nops; is >> fl >> nkeys >> nops;
-        if (fl == 0) run<SetOps>(out, fl, nkeys, is, nops); else run<MapOps>(out, fl, nkeys, is, nops);
+        // flavours 2 / 3: the same scripts with keys and values whose move operations empty the source
+        if (fl == 0) run<SetOps>(out, fl, nkeys, is, nops); else if (fl == 1) run<MapOps>(out, fl, nkeys, is, nops);
+        else if (fl == 2) run<SetOpsT<MKey>>(out, 0, nkeys, is, nops); else run<MapOpsT<MKey, MKey>>(out, 1, nkeys, is, nops);
     }
     out.flush();
     return 0;
